@@ -56,7 +56,7 @@ func (r *runner) step(a string, args M) M {
 		args["idsDiffer"] = geti(args, "app") != geti(args, "pair")
 	case "CancelOrder":
 		x := r.w.Xs[[2]int64{geti(args, "app"), geti(args, "pair")}]
-		args["pairResidue"] = x[0] != 0 || x[1] != 0
+		args["pairResidue"] = x[0] // cumulative base residue of the batch matching in this pair (0 = conserving so far)
 	}
 	res := r.w.Exec(a, args)
 	r.st = r.w.Project()
@@ -399,6 +399,43 @@ func (r *runner) setupPairs(rng *sim.Rng, c cfg) {
 	}
 }
 
+// scripted history (DESIGN section 5 #10): an older sell order and a batch in which the residual handed to the
+// older batch-group is too small to be worth one quote unit.
+func scriptResidue(lg *sim.Log, base *World, mm bool) {
+	r := newRunner(lg, base, fmt.Sprintf("script:residue:%v", mm))
+	r.step("CreatePair", M{"u": "u1", "app": int64(1), "base": "uaa", "quote": "ubb"})
+	lo := func(u, dir string, price, amt int64) {
+		offer := amt + amt*3/1000 + 1
+		if dir == "B" {
+			offer = (price*amt+PS-1)/PS + ((price*amt+PS-1)/PS)*3/1000 + 1
+		}
+		if mm && dir == "S" { // fee-free market-making orders: no reserve slack in the escrow
+			r.step("MMOrder", M{"u": u, "app": int64(1), "pair": int64(1), "sellAmt": amt, "minSell": price, "maxSell": price,
+				"buyAmt": int64(0), "minBuy": int64(0), "maxBuy": int64(0), "life": int64(3600)})
+			return
+		}
+		r.step("LimitOrder", M{"u": u, "app": int64(1), "pair": int64(1), "dir": dir, "price": price, "amt": amt, "offer": offer, "life": int64(3600)})
+	}
+	first := true
+	_ = first
+	mmSave := mm
+	mm = false // the older order is a limit order in both variants (one MM order set per owner and pair)
+	lo("u1", "S", 9000, 200)
+	mm = mmSave
+	r.block(6)
+	lo("u2", "S", 9000, 1900)
+	lo("u3", "S", 9000, 1100)
+	lo("u1", "S", 5000, 2200)
+	lo("u2", "B", 20000, 2401)
+	r.block(6)
+	r.block(6)
+	for _, o := range r.orders(live) {
+		r.step("CancelOrder", M{"u": o["owner"].(string), "app": o["app"].(int64), "pair": o["pair"].(int64), "id": o["id"].(int64)})
+	}
+	r.block(4000)
+	r.block(6)
+}
+
 func driveRandom(lg *sim.Log, base *World, seed int64, runs, steps int) {
 	rng := sim.NewRng(seed)
 	for i := 0; i < runs; i++ {
@@ -585,6 +622,8 @@ func Main(args []string) int {
 			fmt.Printf("explore %s app %d: alphabet=%d executed=%d distinct_states=%d\n", al.Scope, al.App, len(al.Acts), e, st)
 		}
 	}
+	scriptResidue(lg, base, false)
+	scriptResidue(lg, base, true)
 	driveRandom(lg, base, *seed, *runs, *steps)
 	if err := lg.Write(*out); err != nil {
 		fmt.Fprintln(os.Stderr, err)
